@@ -29,6 +29,8 @@ type c10Case struct {
 	Reuse   bool         `json:"reuse,omitempty"`  // one filtered FS value walked repeatedly and re-entrantly
 	Follow  []string     `json:"follow,omitempty"` // FollowPaths (the trees have no symlinks: each path stands for itself)
 	Multi   bool         `json:"multi,omitempty"`  // the filter sits on a composite whose sub-roots are the tree's top-level directories
+	// FollowEmpty: FollowPaths is present but empty ([]string{}): nothing is followed, the include list stays as it is
+	FollowEmpty bool `json:"followempty,omitempty"`
 }
 
 func (c c10Case) String() string {
@@ -48,13 +50,16 @@ func (c c10Case) String() string {
 	if c.Multi {
 		s += " over-a-composite-of-sub-roots"
 	}
+	if c.FollowEmpty {
+		s += " follow=[](empty, not nil)"
+	}
 	return s
 }
 
 var c10Patterns = []string{"a", "a/b", "a/*", "a/**", "*", "**", "a*", "?b", "*/b", "**/b", "a/b/", "[a]b", "a/b*", "b", "!a", "!a/b", "!a/b*", "!**/c", "ab"}
 
 // literal prefixes of increasing depth, negated and not, and trailing globs
-var c10DeepPatterns = []string{"a", "a/b", "a/b/c", "a/b/c/b", "!a", "!a/b", "!a/b/c", "b/a", "!b/a", "a/*", "a/b/**", "!a/b/*", "!a/b/**"}
+var c10DeepPatterns = []string{"a", "a/b", "a/b/c", "a/b/c/b", "!a", "!a/b", "!a/b/c", "b/a", "!b/a", "a/*", "a/b/**", "!a/b/*", "!a/b/**", "!a/bc"}
 
 // patterns whose tail is more than one wildcard component (used in single-pattern and pair cases)
 var c10TailPatterns = []string{"a/*/**", "*/*", "a/*/*", "!a/*/*", "!a/*/**", "*/*/**"}
@@ -269,6 +274,9 @@ type c10Result struct {
 func walkFiltered(c c10Case, under fsutil.FS) (*c10Result, error) {
 	res := &c10Result{stats: map[string]*types.Stat{}, mapped: map[string]bool{}}
 	opt := &fsutil.FilterOpt{IncludePatterns: c.Include, ExcludePatterns: c.Exclude, FollowPaths: c.Follow}
+	if c.FollowEmpty {
+		opt.FollowPaths = []string{}
+	}
 	if c.MapOp != "" {
 		opt.Map = func(p string, st *types.Stat) fsutil.MapResult {
 			res.mapped[p] = true
@@ -541,6 +549,23 @@ func runC10(r *evid.Run) {
 		for _, n := range multi {
 			for _, op := range []string{"exclude", "skipdir"} {
 				cases = append(cases, c10Case{Tree: multi, MapOp: op, MapPath: n.Path, Multi: true}, c10Case{Tree: multi, Include: []string{"*/a"}, MapOp: op, MapPath: n.Path, Multi: true})
+			}
+		}
+	}
+	// an empty (but present) follow list next to include and exclude lists
+	for _, t := range trees {
+		for _, inc := range patternLists(1, c10Patterns) {
+			for _, exc := range patternLists(1, c10Patterns) {
+				cases = append(cases, c10Case{Tree: t, Include: inc, Exclude: exc, FollowEmpty: true})
+			}
+		}
+	}
+	// patterns spelled with a leading separator or leading "..": they name nothing inside the tree
+	odd := []string{"/a", "../a", "!/a/b", "/a/b", "a", "!a/b", "a/../b", "./a/b"}
+	for _, t := range trees[:4] {
+		for _, inc := range patternLists(2, odd) {
+			for _, exc := range patternLists(1, odd) {
+				cases = append(cases, c10Case{Tree: t, Include: inc, Exclude: exc}, c10Case{Tree: t, Include: exc, Exclude: inc})
 			}
 		}
 	}
